@@ -9,13 +9,6 @@ TRACKER = "jxl_grid::alloc_tracker::AllocTracker"
 ALLOC = TRACKER + "::alloc"
 ATOMIC = "core::sync::atomic::Atomic::<usize>::"
 
-FIELD_USERS = {
-    TRACKER + "::alloc": {"fetch_update"},
-    TRACKER + "::shrink_limit": {"fetch_update"},
-    TRACKER + "::expand_limit": {"fetch_add"},
-    "<jxl_grid::alloc_tracker::AllocHandle as core::ops::drop::Drop>::drop": {"fetch_add"},
-    "<jxl_grid::alloc_tracker::AllocTrackerInner as core::fmt::Debug>::fmt": set(),
-}
 
 
 def touches_field(place, field, adt):
@@ -63,18 +56,68 @@ def places_of_term(t):
             yield p
 
 
+def bytes_left_op(f, defs, t):
+    """name of the atomic method if terminator t is an atomic operation applied to AllocTrackerInner.bytes_left"""
+    c = callee(t)
+    if not c or not c["fn"].startswith(ATOMIC) or not t[2]:
+        return None
+    l = op_local(t[2][0])
+    ap = access_path(f, defs, l) if l is not None else None
+    if ap and ap[1] and ap[1][-1] == "bytes_left":
+        return c["fn"][len(ATOMIC):].split("::")[0]
+    return None
+
+
+def closure_is_checked_sub(grid, f, defs, t):
+    """fetch_update(.., closure): closure body is exactly `current.checked_sub(captured)`; returns (ok, closure fn, access path
+    of the captured amount in f)"""
+    cl = op_local(t[2][3]) if len(t[2]) > 3 else None
+    cpath = None
+    captured = None
+    d = defs.single(cl) if cl is not None else None
+    if d and d[2] == "assign" and d[3][2][0] == "agg" and d[3][2][1][0] == "closure":
+        cpath = d[3][2][1][1]
+        ops_ = d[3][2][2]
+        if len(ops_) == 1:
+            cap = op_local(ops_[0])
+            captured = access_path(f, defs, cap) if cap is not None else None
+    cf = grid.fn(cpath) if cpath else None
+    if cf is None:
+        return False, None, None
+    calls = [(bb, tt) for bb, tt in cf.calls()]
+    ok = False
+    if len(calls) == 1:
+        cc = callee(calls[0][1])
+        tt = calls[0][1]
+        if cc and cc["fn"] == "core::num::<impl usize>::checked_sub" and tt[3] == [0]:
+            cdefs = Defs(cf)
+            a0p = op_place(tt[2][0])
+            a0 = access_path(cf, cdefs, a0p[0]) if a0p is not None else None
+            a1p = op_place(tt[2][1])
+            a1 = access_path(cf, cdefs, a1p[0]) if a1p is not None else None
+            if a0 == (2, ()) and a1 is not None and a1[0] == 1:
+                ok = True
+    arith = [st for blk in cf.blocks for st in blk[0] if st[0] == "=" and st[2][0] == "bin"]
+    return (ok and not arith), cf, captured
+
+
 def rule_tracker(ctx):
     rid = "R-TRACKER"
-    ctx.rule(rid, "AllocTrackerInner.bytes_left is touched only by with_limit/alloc/expand_limit/shrink_limit/AllocHandle::drop; "
-                  "the only decrement is AtomicUsize::fetch_update whose closure returns usize::checked_sub(current, amount) and "
-                  "nothing else (single atomic RMW: never underflows, so tracked total <= limit for every interleaving); the handle "
-                  "records exactly the amount subtracted and drop adds exactly that amount back")
+    ctx.rule(rid, "every operation on AllocTrackerInner.bytes_left is AtomicUsize::new, load, fetch_add, or a fetch_update whose closure is "
+                  "exactly `current.checked_sub(amount)` (single atomic RMW: the budget never wraps, so tracked total <= limit for every "
+                  "interleaving); an AllocHandle is built only on the Ok edge of such a decrement and records exactly the amount "
+                  "subtracted; its `bytes` field is written nowhere but in drop, and drop adds exactly that amount back.  Matched by "
+                  "operation, not by function name: extracting the decrement into a helper is silent")
     prog = ctx.prog
     grid = prog.crate("jxl_grid")
     if INNER not in grid.adts or HANDLE not in grid.adts:
         ctx.anchor_missing(rid, INNER)
         return
-    # 1+2: field access census and the atomic operation applied
+    ALLOWED = {"fetch_update", "fetch_add", "load", "new"}
+    # 1: census of operations on bytes_left; decrement sites
+    decrements = {}     # fn path -> list of (terminator, captured access path)
+    helpers = {}        # fn path -> index of the parameter that is the amount (function returns the fetch_update result)
+    n_add = 0
     for f in prog.all_fns(LIB_CRATES):
         hit = False
         for b, blk in enumerate(f.blocks):
@@ -88,115 +131,112 @@ def rule_tracker(ctx):
         if not hit:
             continue
         ctx.seen(f)
-        allowed = FIELD_USERS.get(f.path)
-        if allowed is None:
-            ctx.bad(rid, "field-user:" + f.path, "bytes_left is accessed outside the reviewed accounting functions", fn=f)
-            continue
         defs = Defs(f)
-        ops = set()
         for b, t in f.calls():
-            c = callee(t)
-            if not c or not c["fn"].startswith(ATOMIC) or not t[2]:
+            m = bytes_left_op(f, defs, t)
+            if m is None:
                 continue
-            l = op_local(t[2][0])
-            ap = access_path(f, defs, l) if l is not None else None
-            if ap and ap[1] and ap[1][-1] == "bytes_left":
-                m = c["fn"][len(ATOMIC):].split("::")[0]
-                ops.add(m)
-                if m not in allowed and m != "load":
-                    ctx.bad(rid, "atomic-op:%s:%s" % (f.path, m),
-                            "bytes_left is modified with AtomicUsize::%s in %s: only a fetch_update(checked_sub) decrement and a "
-                            "fetch_add give-back keep the budget from wrapping under concurrency" % (m, f.path.split("::")[-1]),
-                            fn=f, pos=t[-2])
+            ctx.count(rid + ".operations")
+            if m not in ALLOWED:
+                ctx.bad(rid, "atomic-op:%s:%s" % (f.path, m),
+                        "bytes_left is modified with AtomicUsize::%s in %s: only a fetch_update(checked_sub) decrement and a "
+                        "fetch_add give-back keep the budget from wrapping under concurrency" % (m, f.path.split("::")[-1]),
+                        fn=f, pos=t[-2])
+                continue
+            if m == "fetch_add":
+                n_add += 1
+            if m == "fetch_update":
+                ok, cf, captured = closure_is_checked_sub(grid, f, defs, t)
+                if cf is not None:
+                    ctx.seen(cf)
+                if ok:
+                    ctx.ok(rid, "decrement-closure:" + f.path, "closure body is exactly `current.checked_sub(amount)`", nontrivial=True, fn=cf)
+                    decrements.setdefault(f.path, []).append((t, captured))
+                    ctx.count(rid + ".decrements")
+                    # helper: the amount is a parameter and the result is returned as is
+                    if captured is not None and captured[1] == () and 1 <= captured[0] <= f.argc and t[3] == [0]:
+                        helpers[f.path] = captured[0] - 1
                 else:
-                    ctx.ok(rid, "atomic-op:%s:%s" % (f.path, m), "reviewed operation", fn=f)
-        missing = allowed - ops
-        if missing:
-            ctx.bad(rid, "atomic-op-missing:%s:%s" % (f.path, ",".join(sorted(missing))),
-                    "expected %s on bytes_left in this function" % sorted(missing), fn=f)
-    for p in FIELD_USERS:
-        if grid.fn(p) is None and not p.startswith("<" + INNER):
-            ctx.anchor_missing(rid, p)
-    # 3: the decrement closures
-    for owner in (TRACKER + "::alloc", TRACKER + "::shrink_limit"):
-        f = grid.fn(owner)
-        if f is None:
-            continue
-        for b, t in f.calls():
-            c = callee(t)
-            if not c or c["fn"] != ATOMIC + "fetch_update":
-                continue
-            clos = [a for a in c["args"] if "{closure@" in a]
-            # closure path: owner::{closure#N}; find through the aggregate feeding the 4th argument
-            defs = Defs(f)
-            cl = op_local(t[2][3]) if len(t[2]) > 3 else None
-            cpath = None
-            captured = None
-            d = defs.single(cl) if cl is not None else None
-            if d and d[2] == "assign" and d[3][2][0] == "agg" and d[3][2][1][0] == "closure":
-                cpath = d[3][2][1][1]
-                ops_ = d[3][2][2]
-                if len(ops_) == 1:
-                    cap = op_local(ops_[0])
-                    ap = access_path(f, defs, cap) if cap is not None else None
-                    captured = ap
-            cf = grid.fn(cpath) if cpath else None
-            if cf is None:
-                ctx.bad(rid, "decrement-closure:" + owner, "cannot find the closure passed to fetch_update", fn=f, pos=t[-2])
-                continue
-            ctx.seen(cf)
-            calls = [(bb, tt) for bb, tt in cf.calls()]
-            ok = False
-            if len(calls) == 1:
-                cc = callee(calls[0][1])
-                tt = calls[0][1]
-                if cc and cc["fn"] == "core::num::<impl usize>::checked_sub" and tt[3] == [0]:
-                    # first operand is the closure parameter (current value), second is the captured amount
-                    cdefs = Defs(cf)
-                    a0p = op_place(tt[2][0])
-                    a0 = access_path(cf, cdefs, a0p[0]) if a0p is not None else None
-                    a1p = op_place(tt[2][1])
-                    a1 = access_path(cf, cdefs, a1p[0]) if a1p is not None else None
-                    if a0 == (2, ()) and a1 is not None and a1[0] == 1:
-                        ok = True
-            # no arithmetic in the closure
-            arith = [st for blk in cf.blocks for st in blk[0] if st[0] == "=" and st[2][0] == "bin"]
-            if ok and not arith:
-                ctx.ok(rid, "decrement-closure:" + owner, "closure body is exactly `current.checked_sub(amount)`", nontrivial=True, fn=cf)
+                    ctx.bad(rid, "decrement-closure:" + f.path, "the closure given to fetch_update on bytes_left is not exactly "
+                            "`current.checked_sub(amount)`: the budget can wrap below zero", fn=cf or f, pos=t[-2])
             else:
-                ctx.bad(rid, "decrement-closure:" + owner, "the closure given to fetch_update is not exactly `current.checked_sub(amount)`: "
-                        "the budget can wrap below zero", fn=cf)
-            if owner.endswith("::alloc"):
-                check_alloc_handle(ctx, f, defs, t, captured)
-    # 4b: the amount is count * size_of::<T>()
-    fa = grid.fn(TRACKER + "::alloc")
-    if fa is not None:
-        from ..validation import subject_name
-        da = Defs(fa)
-        amt = None
-        for blk in fa.blocks:
-            for st in blk[0]:
-                if st[0] == "=" and st[2][0] == "agg" and st[2][1][0] == "adt" and st[2][1][1] == HANDLE:
-                    amt = subject_name(fa, da, st[2][2][0], use_names=False)
-        if amt is not None and "count" in str(amt) and "size_of" in str(amt) and "*" in str(amt):
-            ctx.ok(rid, "amount-is-count-times-size", "bytes = %s" % amt, nontrivial=True, fn=fa)
-        else:
-            ctx.bad(rid, "amount-is-count-times-size", "the amount charged by alloc::<T>(count) is not count * size_of::<T>() (found %s): allocations are "
-                    "under- or over-accounted" % amt, fn=fa)
-    # 5: drop gives back self.bytes
-    f = grid.fn("<jxl_grid::alloc_tracker::AllocHandle as core::ops::drop::Drop>::drop")
-    if f is not None:
+                ctx.ok(rid, "atomic-op:%s:%s" % (f.path, m), "reviewed operation", fn=f)
+    ctx.counts[rid + ".give-backs"] = n_add
+    ctx.floor(rid + ".decrements", 1)
+    ctx.floor(rid + ".give-backs", 1)
+    # 2: every AllocHandle construction sits on the Ok edge of a decrement and records its amount
+    for f in prog.all_fns(LIB_CRATES):
+        cons = [(b, st) for b, blk in enumerate(f.blocks) if not f.is_cleanup(b) for st in blk[0]
+                if st[0] == "=" and st[2][0] == "agg" and st[2][1][0] == "adt" and st[2][1][1] == HANDLE]
+        if not cons:
+            continue
+        ctx.seen(f)
         defs = Defs(f)
+        ctx.count(rid + ".handle-constructions", len(cons))
+        # decrement results available in f: direct fetch_update, or a call to a helper
+        avail = list(decrements.get(f.path, []))
         for b, t in f.calls():
             c = callee(t)
-            if c and c["fn"] == ATOMIC + "fetch_add":
+            if c and c.get("res", c["fn"]) in helpers or (c and c["fn"] in helpers):
+                hp = c["fn"] if c["fn"] in helpers else c.get("res")
+                k = helpers[hp]
+                if k < len(t[2]):
+                    al = op_local(t[2][k])
+                    avail.append((t, access_path(f, defs, al) if al is not None else None))
+        if not avail:
+            ctx.bad(rid, "handle-forged:" + f.path, "AllocHandle is constructed in a function that does not decrement the budget (bytes "
+                    "returned on drop were never subtracted)", fn=f, pos=cons[0][1][3])
+            continue
+        for t, captured in avail[:1]:
+            check_alloc_handle(ctx, f, defs, t, captured)
+        # the amount is count * size_of::<T>()
+        from ..validation import subject_name
+        amt = None
+        for b, st in cons:
+            amt = subject_name(f, defs, st[2][2][0], use_names=False)
+        if amt is not None and "size_of" in str(amt) and "*" in str(amt):
+            ctx.ok(rid, "amount-is-count-times-size", "bytes = %s" % amt, nontrivial=True, fn=f)
+        else:
+            ctx.bad(rid, "amount-is-count-times-size", "the amount charged by alloc::<T>(count) is not count * size_of::<T>() (found %s): "
+                    "allocations are under- or over-accounted" % amt, fn=f)
+    # 3: drop gives back self.bytes
+    f = grid.fn("<jxl_grid::alloc_tracker::AllocHandle as core::ops::drop::Drop>::drop")
+    if f is None:
+        ctx.anchor_missing(rid, "<AllocHandle as Drop>::drop")
+    else:
+        defs = Defs(f)
+        gave = False
+        for b, t in f.calls():
+            if bytes_left_op(f, defs, t) == "fetch_add":
                 amt = op_local(t[2][1])
                 ap = access_path(f, defs, amt) if amt is not None else None
                 if ap and ap[0] == 1 and ap[1] == ("bytes",):
+                    gave = True
                     ctx.ok(rid, "drop-gives-back-bytes", "fetch_add(self.bytes)", nontrivial=True, fn=f)
                 else:
                     ctx.bad(rid, "drop-gives-back-bytes", "AllocHandle::drop does not add back exactly self.bytes", fn=f, pos=t[-2])
-    # 6: AllocHandle / AllocTrackerInner constructed only in alloc / with_limit ; 7: writes to AllocHandle.bytes only in drop
+                    gave = True
+        if not gave:
+            # one level of helper: drop calls g(.., self.bytes) and g does fetch_add(param)
+            for b, t in f.calls():
+                c = callee(t)
+                g = grid.fn(c["fn"]) if c else None
+                if g is None:
+                    continue
+                gd = Defs(g)
+                for gb, gt in g.calls():
+                    if bytes_left_op(g, gd, gt) == "fetch_add":
+                        ga = op_local(gt[2][1])
+                        gap = access_path(g, gd, ga) if ga is not None else None
+                        if gap and gap[1] == () and 1 <= gap[0] <= g.argc and gap[0] - 1 < len(t[2]):
+                            al = op_local(t[2][gap[0] - 1])
+                            ap = access_path(f, defs, al) if al is not None else None
+                            if ap and ap[0] == 1 and ap[1] == ("bytes",):
+                                gave = True
+                                ctx.ok(rid, "drop-gives-back-bytes", "helper %s does fetch_add(self.bytes)" % g.path, nontrivial=True, fn=f)
+            if not gave:
+                ctx.bad(rid, "drop-gives-back-bytes", "AllocHandle::drop does not add self.bytes back to the budget", fn=f)
+    # 4: AllocTrackerInner constructed only with AtomicUsize::new(limit); writes to AllocHandle.bytes only in drop
     for f in prog.all_fns(LIB_CRATES):
         for b, blk in enumerate(f.blocks):
             if f.is_cleanup(b):
@@ -204,17 +244,13 @@ def rule_tracker(ctx):
             for st in blk[0]:
                 if st[0] != "=":
                     continue
-                rv = st[2]
-                if rv[0] == "agg" and rv[1][0] == "adt" and rv[1][1] == HANDLE:
-                    ctx.count(rid + ".handle-constructions")
-                    if f.path != ALLOC:
-                        ctx.bad(rid, "handle-forged:" + f.path, "AllocHandle is constructed outside AllocTracker::alloc (bytes returned on drop "
-                                "were never subtracted)", fn=f, pos=st[3])
-                if rv[0] == "agg" and rv[1][0] == "adt" and rv[1][1] == INNER and f.path != TRACKER + "::with_limit":
-                    ctx.bad(rid, "inner-forged:" + f.path, "AllocTrackerInner constructed outside with_limit", fn=f, pos=st[3])
-                if touches_field(st[1], "bytes", HANDLE) and st[1][-1][0] == "." and st[1][-1][2] == "bytes":
+                if touches_field(st[1], "bytes", HANDLE) and isinstance(st[1][-1], list) and st[1][-1][0] == "." and st[1][-1][2] == "bytes":
                     if not f.path.endswith("as core::ops::drop::Drop>::drop"):
-                        ctx.bad(rid, "handle-bytes-written:" + f.path, "AllocHandle.bytes is modified outside drop", fn=f, pos=st[3])
+                        ctx.bad(rid, "handle-bytes-written:" + f.path, "AllocHandle.bytes is modified outside drop: the amount given back "
+                                "can differ from the amount taken", fn=f, pos=st[3])
+                if st[2][0] in ("ref", "rawptr") and st[2][1] not in ("shared", "fake") and touches_field(st[2][2], "bytes", HANDLE) \
+                        and isinstance(st[2][2][-1], list) and st[2][2][-1][2] == "bytes" and not f.path.endswith("as core::ops::drop::Drop>::drop"):
+                    ctx.bad(rid, "handle-bytes-written:" + f.path, "AllocHandle.bytes is borrowed mutably outside drop", fn=f, pos=st[3])
     ctx.floor(rid + ".handle-constructions", 1)
     ctx.not_decided("`count * size_of::<T>()` in alloc wraps in release builds; callers bound `count` (C01/R-LIMIT), not re-proved here")
 
